@@ -3,3 +3,4 @@ pub mod mutate;
 pub mod expr;
 pub mod isa;
 pub mod program;
+pub mod banks;
